@@ -1,6 +1,7 @@
 package cluster
 
 import (
+	"sync"
 	"fmt"
 	"path/filepath"
 	"strings"
@@ -37,7 +38,8 @@ type CNode struct {
 
 // Cluster is a set of nodes sharing one lease service.
 type Cluster struct {
-	Dir   string
+	nodeMu sync.RWMutex // guards CNode.Node / CNode.Up against observer goroutines
+	Dir    string
 	Svc   *lease.Service
 	Nodes []*CNode
 }
@@ -85,11 +87,27 @@ func (c *Cluster) Start(i int) error {
 		p := db.Pos()
 		return [2]uint64{uint64(p.TXID), uint64(p.PostApplyChecksum)}
 	})
+	c.nodeMu.Lock()
 	cn.Node = n
+	cn.Up = true
+	c.nodeMu.Unlock()
 	cn.Proxy.SetTarget(strings.TrimPrefix(n.URL(), "http://"))
 	cn.Proxy.SetMode("pass")
-	cn.Up = true
 	return nil
+}
+
+// Live returns node name's current driver node for observers that run on other
+// goroutines than the scenario (lease-service callbacks, samplers): nil while
+// the node is down or still starting.
+func (c *Cluster) Live(name string) (*drv.Node, *CNode) {
+	c.nodeMu.RLock()
+	defer c.nodeMu.RUnlock()
+	for _, cn := range c.Nodes {
+		if cn.Name == name && cn.Up && cn.Node != nil {
+			return cn.Node, cn
+		}
+	}
+	return nil, nil
 }
 
 // Stop shuts node i down cleanly and cuts its connections.
@@ -98,7 +116,9 @@ func (c *Cluster) Stop(i int) {
 	if !cn.Up {
 		return
 	}
+	c.nodeMu.Lock()
 	cn.Up = false
+	c.nodeMu.Unlock()
 	cn.Proxy.Cut()
 	cn.Node.Close()
 	cn.Proxy.Cut()
